@@ -20,6 +20,19 @@ class Diverged(Exception):
     pass
 
 
+_PALETTES = {}
+_DE = {}
+
+
+def _de_pair(lib_de, a, b):
+    """max of the library's and the reference dE00 (the contract must hold on both), cached."""
+    k = (a, b)
+    v = _DE.get(k)
+    if v is None:
+        v = _DE[k] = max(lib_de(a, b), ciede2000.delta_e(a, b))
+    return v
+
+
 class Env:
     def __init__(self, bg, need, target, prefix, expect_keys=None, fixed=None):
         self.bg, self.need, self.target = bg, need, target
@@ -30,6 +43,13 @@ class Env:
         self.calls = 0
 
     def palette(self, cur, tol):
+        k = (self.bg, self.need, self.target, cur, tol)
+        p = _PALETTES.get(k)
+        if p is None:
+            p = _PALETTES[k] = self._palette(cur, tol)
+        return p
+
+    def _palette(self, cur, tol):
         from cm_colors.core.color_metrics import calculate_delta_e_2000 as lib_de
 
         bg = self.bg
@@ -41,9 +61,9 @@ class Env:
         r0 = wcag.ratio(cur, bg)
         ok = []
         g0 = cur[0]
-        for g in range(0, 256):
+        for g in range(max(0, g0 - 70), min(256, g0 + 71)):
             c = (g, g, g)
-            if lib_de(cur, c) <= tol and ciede2000.delta_e(cur, c) <= tol:
+            if _de_pair(lib_de, cur, c) <= tol:
                 ok.append(c)
         if not ok:
             return [None]
@@ -73,11 +93,11 @@ class Env:
         key = (phase, tuple(cur), float(tol))
         if key in self.memo:
             return self.memo[key]
-        alts = self.palette(tuple(cur), float(tol))
+        if self.fixed is None:
+            alts = self.palette(tuple(cur), float(tol))
         if self.fixed is not None:
+            # replay of a given environment function under another mode / strictness: same answers, unknown keys -> None
             ans = self.fixed.get(key)
-            if ans is not None and ans not in alts:
-                ans = None
             self.memo[key] = ans
             return ans
         i = len(self.keys)
